@@ -183,6 +183,38 @@ theorem c09_cold_program_vars (rt rt' : Runtime) (hwf : WF rt) (h : restart .col
   rw [c09_program_var .cold rt rt' hwf h p hp d hd v0 hi]
   simp [Mode.isWarm]
 
+/-- **FB-typed program variables are re-created by EVERY restart** (the general statement behind
+the known finding on FB members).  Whatever the qualifier of the instance variable or of the
+members inside the FB type, after `restart(Cold|Warm)` the variable holds a new instance whose
+members show their initial values — `RETAIN` is without effect at this level.  (`hold`: the
+variable held an instance handle before, which is never retainable.) -/
+theorem c09_program_fb_recreated (mode : Mode) (rt rt' : Runtime) (hwf : WF rt)
+    (h : restart mode rt = .ok rt') (p : ProgDef) (hp : p ∈ rt.programs) (d : VarDef)
+    (hd : d ∈ p.vars) (ty : Nat) (hi : d.init = .fb ty)
+    (hold : ∀ v, rt.progVar p.name d.name = some v → v.retainable = false) :
+    ∃ fb, findFb rt.fbs ty = some fb ∧
+      rt'.readProgPath p.name d.name none = some (.inst 0) ∧
+      ∀ k, rt'.readProgPath p.name d.name (some k) = (aget (membersMap [] fb.members) k).map obsVal :=
+  restart_program_fb mode rt rt' hwf h p hp d hd ty hi hold
+
+/-- **Warm clause (`c09_warm`), all four statements together.**  After `restart(Warm)`:
+(1) every RETAIN/PERSISTENT global keeps its value; (2) every other global with a value
+initialiser has its declared initial value; (3) every RETAIN/PERSISTENT program variable whose
+value is retainable keeps it; (4) every other program variable has its declared initial value. -/
+theorem c09_warm (rt rt' : Runtime) (hwf : WF rt) (h : restart .warm rt = .ok rt') :
+    (∀ m v, m ∈ rt.globalsMeta → retainOnWarm m.retain = true → rt.storage.getGlobal m.name = some v →
+      rt'.storage.getGlobal m.name = some v) ∧
+    (∀ m v0, m ∈ rt.globalsMeta → retainOnWarm m.retain = false → m.init = .value v0 →
+      rt'.storage.getGlobal m.name = some v0) ∧
+    (∀ p d v0 v, p ∈ rt.programs → d ∈ p.vars → d.init = .plain v0 → retainOnWarm d.retain = true →
+      rt.progVar p.name d.name = some v → v.retainable = true → rt'.progVar p.name d.name = some v) ∧
+    (∀ p d v0, p ∈ rt.programs → d ∈ p.vars → d.init = .plain v0 → retainOnWarm d.retain = false →
+      rt'.progVar p.name d.name = some v0) :=
+  ⟨fun m v hm hr hv => c09_warm_globals_kept rt rt' hwf h m hm hr v hv,
+   fun m v0 hm hr hi => c09_warm_globals_reset rt rt' hwf h m hm hr v0 hi,
+   fun p d v0 v hp hd hi hr hv hret => c09_warm_program_vars_kept rt rt' hwf h p hp d hd v0 hi hr v hv hret,
+   fun p d v0 hp hd hi hr => c09_warm_program_vars_reset rt rt' hwf h p hp d hd v0 hi hr⟩
+
 /-- **Reset clause.**  After any restart: time zero, fault latch cleared, cycle counter zero, no
 frames, every task state is `TaskState::new(0)`; declarations, I/O images and bindings, access
 bindings, task table and retain configuration are untouched. -/
@@ -305,11 +337,6 @@ theorem c09_counterexample_fb_member :
     (W.warm4.map fun p => (W.num? p.1, W.num? p.2)) = some (some 7, some 2) := by decide
 
 /-! ## Cold restart = freshly built runtime, under the guards -/
-
-/-- Guard "SINGLE initial values FALSE": the fresh runtime seeds `last_single` with FALSE for every
-task (no SINGLE variable, or one that is not TRUE right after the build). -/
-def SingleInitFalse (src : Source) (fr : Runtime) : Prop :=
-  ∀ t, t ∈ src.tasks → registerTaskState fr.storage 0 t.single = newTaskState 0
 
 /-- **Cold = fresh, partial.**  Let `fr` be the runtime built from `src` and `rt` ANY runtime of the
 same project (same declarations; `WF`: what the compiler guarantees about names).  Guards: no
